@@ -6,6 +6,8 @@
      qexplore <gen|old> <file hex> <ranges> <workers> <failing> <max states>
      xtrace   <T|F per job stream> <sub|comp> <file hex> <ranges> <workers> <failing> <events>
      xexplore <T|F> <sub|comp> <file hex> <ranges> <workers> <failing> <max states>
+     retry    <answers a/b/c of the successive attempts of one request (status | -1 dropped | -2 refused | -4 body cut); last repeated>
+     history  <gen|slots:<capacity>:<T|F>> <T/F per send: does it raise>
      session  <gen|off|range> <file hex> <ranges of query 1>;<ranges of query 2>;...
               (successive queries of one reader, every strategy run yielding the local read of the ranges it is handed; gen: what
                the source keeps between queries (gen_fetch_site), off / range: a block cache keyed by offset / by (offset, size))
@@ -37,16 +39,54 @@ let range_of_tok t = match String.split_on_char ':' t with
   | _ -> failwith ("bad range " ^ t)
 let tok_of_range (o, s) = Printf.sprintf "%d:%d" (int_of_z o) (int_of_z s)
 let ranges_of_tok t = List.map range_of_tok (split_on '|' t)
-(* failing token o:s:status (o:s = status 500): the server of the run; a request fails when the extracted read says so *)
+(* what the network answers ONE attempt with: a status; -1 = the connection is dropped before any response (read error), -2 = it
+   is refused (connect error), -4 = the response head arrives and the body breaks *)
+let answer_of_int st =
+  if st = -1 then ADropped else if st = -2 then ARefused else if st = -4 then ACut
+  else if st < 0 then failwith "bad answer" else AResp { r_status = z_of_int st; r_body = [] }
+(* answers of the successive attempts of a request, a/b/c: the last one is repeated for ever *)
+let net_of_tok t =
+  let l = List.map int_of_string (String.split_on_char '/' t) in
+  let rec nth l k = match l with [] -> 206 | [x] -> x | x :: r -> if k = 0 then x else nth r (k - 1) in
+  fun k -> answer_of_int (nth l (int_of_nat k))
+(* failing token o:s:answers (o:s = status 500): the network of the run as seen through the session of requests_retry_session
+   (via_retry gen_retry); a request fails when the extracted read says so *)
 let fails_of_tok t =
   let l = List.map (fun tok -> match String.split_on_char ':' tok with
-      | [o; s] -> (o ^ ":" ^ s, 500)
-      | [o; s; st] -> (o ^ ":" ^ s, int_of_string st)
+      | [o; s] -> (o ^ ":" ^ s, net_of_tok "500")
+      | [o; s; st] -> (o ^ ":" ^ s, net_of_tok st)
       | _ -> failwith ("bad failing range " ^ tok)) (split_on '|' t) in
-  let server r = match List.assoc_opt (tok_of_range r) l with
-    | Some st -> if st < 0 then None else Some { r_status = z_of_int st; r_body = [] }
-    | None -> Some { r_status = z_of_int 206; r_body = [] } in
-  stream_fails gen_stream_read server
+  let net r = match List.assoc_opt (tok_of_range r) l with
+    | Some n -> n
+    | None -> (fun _ -> AResp { r_status = z_of_int 206; r_body = [] }) in
+  stream_fails gen_stream_read (via_retry gen_retry net)
+
+let tok_of_tres = function TResp r -> string_of_int (int_of_z r.r_status) | TExhausted -> "exhausted" | TCut -> "cut"
+
+(* one request through the retrying adapter: outcome, attempts, does the read fail *)
+let retry_cmd t =
+  let net = net_of_tok t in
+  let (res, att) = send_cfg gen_retry net in
+  let fails = stream_fails gen_stream_read (via_retry gen_retry (fun _ -> net)) (z_of_int 0, z_of_int 1) in
+  Printf.sprintf "ok result=%s attempts=%d raises=%s fails=%s" (tok_of_tres res) (int_of_nat att)
+    (match res with TExhausted -> "T" | _ -> "F") (if fails then "T" else "F")
+
+(* a history of sends (T = the send raises) against what the transport keeps: gen | slots:<capacity>:<T|F released when send raises> *)
+let kept_of_tok t = match String.split_on_char ':' t with
+  | ["gen"] -> gen_transport_kept
+  | ["slots"; c; rel] -> TkSlots (nat_of_int (int_of_string c), rel = "T")
+  | _ -> failwith ("bad transport " ^ t)
+let history_cmd kept sends =
+  let tk = kept_of_tok kept in
+  let l = List.init (String.length sends) (fun i -> sends.[i] = 'T') in
+  let l = if sends = "-" then [] else l in
+  (* index of the first send that blocks for ever *)
+  let rec go free k = function
+    | [] -> Printf.sprintf "ok blocks=never free=%d" (int_of_nat free)
+    | b :: r -> (match slot_send tk free b with
+        | None -> Printf.sprintf "ok blocks=%d free=0" k
+        | Some f -> go f (k + 1) r) in
+  go (slots_init tk) 0 l
 
 let rec nth_opt l n = match l, n with [], _ -> None | x :: _, 0 -> Some x | _ :: r, n -> nth_opt r (n - 1)
 
@@ -353,11 +393,15 @@ let handle line =
     let xs = xstep (pj = "T") (collect_of_tok c) job (bytes_of_tok f) (fails_of_tok fl) in
     xexplore xs job (ranges_of_tok r) (int_of_string w) (int_of_string m)
   | ["shape"] ->
-    Printf.sprintf "ok worker=%s main=%s per_job=%s collect=%s read=%s reader_workers_for_7=%d kept_between_queries=%s"
+    Printf.sprintf "ok worker=%s main=%s per_job=%s collect=%s read=%s reader_workers_for_7=%d kept_between_queries=%s retry_total=%d retry_connect=%d retry_read=%d retry_statuses=%s transport_keeps=%s"
       (String.concat "," (List.map tok_of_winstr gen_worker_prog)) (String.concat "," (List.map tok_of_minstr gen_main_prog))
       (if gen_exec_stream_per_job then "T" else "F") (match gen_exec_collect with BySubmission -> "sub" | ByCompletion -> "comp")
       (String.concat "," (List.map tok_of_sinstr gen_stream_read)) (int_of_nat (gen_fetch_workers (nat_of_int 7)))
-      (tok_of_site gen_fetch_site)
+      (tok_of_site gen_fetch_site) (int_of_nat gen_retry.rt_total) (int_of_nat gen_retry.rt_connect) (int_of_nat gen_retry.rt_read)
+      (String.concat "," (List.map (fun z -> string_of_int (int_of_z z)) gen_retry.rt_statuses))
+      (match gen_transport_kept with TkNothing -> "nothing" | TkSlots _ -> "slots")
+  | ["retry"; t] -> retry_cmd t
+  | ["history"; kept; sends] -> history_cmd kept sends
   | ["workers"; n] -> Printf.sprintf "ok workers=%d" (int_of_nat (gen_fetch_workers (nat_of_int (int_of_string n))))
   | _ -> "error bad command"
 
